@@ -384,6 +384,14 @@ Section Indep.
   Qed.
 End Indep.
 
+(* ================= LimitEmptyLines.reset ================= *)
+(* what the model calls a freshly constructed processor is what the translated reset() produces: the state the processor had
+   when it was constructed (same limit, counter 0) *)
+Lemma lel_reset_fresh (s : LimitEmptyLines_state) :
+  pp_fresh (PLimit s) = PLimit (LimitEmptyLines_reset s) /\
+  LimitEmptyLines_reset s = LimitEmptyLines_init (LimitEmptyLines_max_empty_lines s).
+Proof. destruct s. split; reflexivity. Qed.
+
 (* ================= witnesses ================= *)
 (* class forest of the witnesses: 0 = CompositeType, 1 = StructureType : CompositeType, 2 = UnionType : CompositeType *)
 Definition w_ct : ctable := [(0, ([67], [])); (1, ([83], [0])); (2, ([85], [0]))].
